@@ -1,2 +1,3 @@
 pub mod uni;
 pub mod ros;
+pub mod exhaustive;
